@@ -57,6 +57,39 @@ type Step struct {
 	Fail  bool   `json:"fail,omitempty"`  // the loader fails during this operation (load-error fault)
 	Panic bool   `json:"panic,omitempty"` // the loader panics during this operation (load-panic fault)
 	Src   string `json:"src,omitempty"`   // how the pattern reaches the engine: const | concat
+	Rep   int    `json:"rep,omitempty"`   // the operation is performed Rep more times in a row (warm-up histories: adaptive code paths)
+}
+
+// IndexedStep is a step with its index in the scenario's step list.
+type IndexedStep struct {
+	I  int
+	St Step
+}
+
+// Expand unrolls repeated steps; every copy keeps the index of the original.
+func Expand(steps []Step) []IndexedStep {
+	var out []IndexedStep
+	for i, st := range steps {
+		n := st.Rep
+		st.Rep = 0
+		for k := 0; k <= n; k++ {
+			out = append(out, IndexedStep{i, st})
+		}
+	}
+	return out
+}
+
+// RepCounts: how often a warm-up operation is repeated - around the thresholds
+// adaptive code tends to use.
+var RepCounts = []int{3, 8, 9, 16, 17, 32, 33, 64, 65, 100, 101, 128, 129, 256, 257, 1000, 1025}
+
+func pickRep(r *Rng, max int) int {
+	for {
+		n := RepCounts[r.Intn(len(RepCounts))]
+		if n <= max {
+			return n
+		}
+	}
 }
 
 // Scenario is the explicit, self-contained description of one simulated run.
@@ -378,6 +411,20 @@ func GenC04(seed, run uint64, ok CompileOK) *Scenario {
 		}
 		s.Steps = append(s.Steps, st)
 	}
+	if r.Chance(1, 8) {
+		// warm-up run: one (expression, document, context) is evaluated many times
+		// in a row somewhere in the history (adaptive code paths)
+		e, d := r.Intn(len(s.Exprs)), r.Intn(len(s.Docs))
+		c := ctxFor(r, s.Docs, d)
+		at := r.Intn(len(s.Steps) + 1)
+		w := Step{Op: r.Pick([]string{"eval", "probe", "probe"}), E: e, D: d, C: c, Rep: pickRep(r, 1100)}
+		s.Steps = append(s.Steps[:at:at], append([]Step{w}, s.Steps[at:]...)...)
+		// and the same expression is used again afterwards, elsewhere
+		for k := r.Range(1, 3); k > 0; k-- {
+			d2 := r.Intn(len(s.Docs))
+			s.Steps = append(s.Steps, Step{Op: r.Pick([]string{"eval", "probe"}), E: e, D: d2, C: ctxFor(r, s.Docs, d2)})
+		}
+	}
 	return s
 }
 
@@ -435,6 +482,13 @@ func GenC12(seed, run uint64, ok CompileOK) *Scenario {
 			st.Op = "rel"
 		}
 		s.Steps = append(s.Steps, st)
+	}
+	if r.Chance(1, 8) {
+		// warm-up: the relations of one expression are checked many times in a row
+		d := r.Intn(len(s.Docs))
+		at := r.Intn(len(s.Steps) + 1)
+		w := Step{Op: "rel", E: r.Intn(len(s.Exprs)), D: d, C: ctxFor(r, s.Docs, d), Rep: pickRep(r, 300)}
+		s.Steps = append(s.Steps[:at:at], append([]Step{w}, s.Steps[at:]...)...)
 	}
 	// every expression gets its relations checked at least once, from the root
 	// and from one random node
@@ -715,6 +769,18 @@ func GenC16H(seed, run uint64) *Scenario {
 		st := Step{Op: "matchnodes", N: r.Intn(5), K: keys[r.Intn(len(keys))]}
 		s.Steps = append(s.Steps[:at:at], append([]Step{st}, s.Steps[at:]...)...)
 	}
+	if r.Chance(1, 6) {
+		// warm-up: one operation repeated many times (hit counters, promotion thresholds)
+		for k := r.Range(1, 2); k > 0; k-- {
+			i := r.Intn(len(s.Steps))
+			if op := s.Steps[i].Op; op == "get" || op == "matches" || op == "replace" || op == "pernode" {
+				s.Steps[i].Rep = pickRep(r, 1100)
+				if op == "pernode" && s.Steps[i].Rep > 130 {
+					s.Steps[i].Rep = 129
+				}
+			}
+		}
+	}
 	if s.Cfg.Faults {
 		// cache-swap mid-run
 		for k := r.Weighted([]int{3, 2, 1}); k > 0 && len(s.Steps) > 0; k-- {
@@ -780,6 +846,15 @@ func GenC16G(seed, run uint64) *Scenario {
 			n = r.Range(10, 30)
 		}
 		s.Tasks = append(s.Tasks, genCacheOps(r, n, keys, s.Cfg.Faults))
+	}
+	if r.Chance(1, 8) {
+		// warm-up: every task repeats one of its operations many times
+		for t := range s.Tasks {
+			i := r.Intn(len(s.Tasks[t]))
+			if op := s.Tasks[t][i].Op; op == "get" || op == "matches" || op == "replace" {
+				s.Tasks[t][i].Rep = pickRep(r, 70)
+			}
+		}
 	}
 	s.SchedSeed = r.U64()
 	return s
@@ -919,6 +994,25 @@ func GenC05(seed, run uint64, ok CompileOK) *Scenario {
 			ops = append(ops, st)
 		}
 		s.Tasks = append(s.Tasks, ops)
+	}
+	if r.Chance(1, 8) {
+		// warm-up: every task repeats one of its evaluations many times
+		// (on the hot expression: code that adapts to a much-used Expr has to cope
+		// with several goroutines crossing its threshold together)
+		op := r.Pick([]string{"eval", "eval", "select"})
+		for t := range s.Tasks {
+			i := r.Intn(len(s.Tasks[t]))
+			st := &s.Tasks[t][i]
+			if compileStorm || st.Op == "mustbad" {
+				continue
+			}
+			st.Op, st.N, st.Crash = op, 0, 0
+			st.E, st.D, st.C = hotE, hotD, hotC
+			st.Rep = pickRep(r, 130)
+			if r.Chance(1, 2) {
+				st.Rep = []int{33, 64, 65, 100, 129}[r.Intn(5)]
+			}
+		}
 	}
 	s.SchedSeed = r.U64()
 	return s
